@@ -224,6 +224,14 @@ def small_tracks(rng, ntr=None, maxn=12):
                     "cts": None if rng.random() < 0.5 else [rng.choice([0, 5, -5]) for _ in range(n)],
                     "sync": None if rng.random() < 0.5 else sorted(rng.sample(range(1, n + 1), rng.randint(0, n))) if n else [],
                     "co64": rng.random() < 0.4, "fixed": fixed})
+        # run-length tables that are NOT maximally compressed: consecutive entries repeating the same value (legal; some muxers write one entry per chunk / sample)
+        q = rng.random()
+        if rng.random() < 0.35:
+            trs[-1]["stsc_split"] = (lambda j, q=q: (j * 7919) % 10 < 3 + q * 7)
+        if rng.random() < 0.25:
+            trs[-1]["stts_split"] = (lambda j, q=q: (j * 31) % 10 < 2 + q * 6)
+        if rng.random() < 0.25:
+            trs[-1]["ctts_split"] = (lambda j, q=q: (j * 17) % 10 < 2 + q * 6)
     return trs
 
 
@@ -315,6 +323,44 @@ def trun_bombs(init):
             seg = bytes(isogen.render([moof, isogen.Box("mdat", [isogen.Raw(b"abcd")])]).data)
             out.append(("trun_bomb_%03x_%x" % (flags, count), {"data": init, "frag": seg}))
             out.append(("trun_bomb1_%03x_%x" % (flags, count), {"data": init + seg}))
+    return out
+
+
+CONTAINERS = {b"moov", b"trak", b"mdia", b"minf", b"stbl", b"mvex", b"moof", b"traf", b"udta", b"edts", b"dinf"}
+
+
+def box_positions(data, start=0, end=None, path=""):
+    """(offset, type, path) of every box reachable through the plain containers of a well-formed file"""
+    out = []
+    end = len(data) if end is None else end
+    pos = start
+    while pos + 8 <= end:
+        size = int.from_bytes(data[pos:pos + 4], "big")
+        typ = bytes(data[pos + 4:pos + 8])
+        hdr = 8
+        if size == 1:
+            size = int.from_bytes(data[pos + 8:pos + 16], "big")
+            hdr = 16
+        elif size == 0:
+            size = end - pos
+        if size < hdr or pos + size > end:
+            break
+        p = path + "/" + typ.decode("latin1")
+        out.append((pos, typ, p))
+        if typ in CONTAINERS:
+            out += box_positions(data, pos + hdr, pos + size, p)
+        pos += size
+    return out
+
+
+def retype_mutations(data):
+    """each box, one at a time, given a type nobody knows (the box is then skipped: the file lacks it).  Optional boxes may be absent in a valid
+    file; a required one makes the file invalid — either way every call must return normally"""
+    out = []
+    for pos, typ, path in box_positions(data):
+        b = bytearray(data)
+        b[pos + 4:pos + 8] = b"zzzz"
+        out.append(("retype:%s@%d" % (path, pos), bytes(b)))
     return out
 
 
